@@ -82,6 +82,8 @@ type Peer struct {
 	AppIn                      []byte
 	GotCloseNotify             bool
 	pending                    []byte // held handshake bytes awaiting the next handshake write
+	Ticket                     []byte // session ticket received in a NewSessionTicket message
+	Resumed                    bool
 	AlertIn                    *[2]byte
 }
 
@@ -244,6 +246,11 @@ func (p *Peer) readHS() (byte, []byte, error) {
 				p.hsBuf = p.hsBuf[4+n:]
 				p.transcript = append(p.transcript, raw...)
 				p.Log = append(p.Log, fmt.Sprintf("recv hs %d", raw[0]))
+				if raw[0] == 4 && len(raw) >= 10 {
+					if n := int(raw[8])<<8 | int(raw[9]); len(raw) == 10+n {
+						p.Ticket = append([]byte{}, raw[10:]...)
+					}
+				}
 				return raw[0], raw[4:], nil
 			}
 		}
@@ -588,6 +595,7 @@ func (p *Peer) RunClient(o ClientOpts) error {
 			return err
 		}
 		p.Log = append(p.Log, "resumed")
+		p.Resumed = true
 		return p.appPhase(o.Send)
 	}
 	if typ != HSCertificate {
